@@ -32,7 +32,7 @@ from vlib.harness import Failure, HarnessError, repo_frame_sig
 K_MODELS = 3
 CHEAP_NEG = 18
 CHEAP = {"masyu", "slitherlink", "yajilin", "geradeweg", "castle_wall", "simpleloop", "akari", "creek", "gokigen",
-         "aquarium", "star_battle", "norinori", "lits", "putteria", "building", "doppelblock", "compass"}
+         "aquarium", "star_battle", "norinori", "lits", "building", "doppelblock", "compass"}
 N_NEG = 6   # negative probes per instance (grids next to a rule-obeying one that the checker rejects)
 Z3_BUDGET_MS = 20000   # per z3 call
 CASE_BUDGET_S = 150    # z3 time per case (a refinement loop can make hundreds of calls)
